@@ -29,11 +29,14 @@ def spaces(tier):
     q = tier == "quick"
 
     def gen_cdist():
-        alpha, L = ("AB", 5) if q else ("ABC", 5)
+        alpha, L = ("AB", 5) if q else ("ABC", 6)
         for w in triples(tier):
             yield ("cdist", alpha, L, w)
-        yield ("cdist", "AB", 6 if q else 7, (1, 1, 1))
-        yield ("cdist", "AB", 6 if q else 7, (1, 2, 3))
+        yield ("cdist", "AB", 6 if q else 8, (1, 1, 1))
+        yield ("cdist", "AB", 6 if q else 8, (1, 2, 3))
+        if not q:
+            yield ("cdist", "ABCD", 4, (2, 3, 5))
+            yield ("cdist", "ABCD", 4, (5, 3, 2))
         yield ("cdist-lev", alpha, L)
 
     def gen_layout():
@@ -57,7 +60,7 @@ def spaces(tier):
             yield ("free", w)
 
     return [
-        Space("cdist-of-universe", gen_cdist, "cdist(U,U) in one call: U(AB,5) quick / U(ABC,5) thorough x 27 weight triples in {1,2,3}^3 + %s; U(AB,6|7) x {(1,1,1),(1,2,3)}; Levenshtein class" % (EXTRA_W,), per_case=True),
+        Space("cdist-of-universe", gen_cdist, "cdist(U,U) in one call: U(AB,5) quick / U(ABC,6) thorough x 27 weight triples in {1,2,3}^3 + %s; U(AB,6|8) x {(1,1,1),(1,2,3)}; Levenshtein class" % (EXTRA_W,), per_case=True),
         Space("condensed-layout-all-lists", gen_layout, "Lists(U(AB,2),4|5) x weights {(1,1,1),(1,2,3),(3,1,2)}: every condensed index, squareform round trip, pdist == upper triangle of cdist", shards=64),
         Space("long-string-boundary-family", gen_long, "lengths %s x shapes {x^n vs y^n, x^n vs '', x^n vs x^(n-1)y, x^n vs x^n} x 3 weight triples" % (LONG,)),
         Space("functional-pdist-cdist", gen_func, "Lists(U(AB,2),4|5) with a metric encoding (a,b) and a forwarded keyword; default metric"),
